@@ -108,7 +108,7 @@ func (s *session) begin(budget int64) (context.Context, context.CancelFunc) {
 		// and treated as inconclusive by the controller)
 		ctx, cancel = context.WithTimeout(context.Background(), 20*time.Second)
 	}
-	cur = stepState{budget: budget, cancel: cancel}
+	beginState(ctx, budget, cancel)
 	return ctx, cancel
 }
 
@@ -165,8 +165,9 @@ func (s *session) runStep(st *proto.Step) proto.StepResult {
 	}
 	r.Events = s.events
 	r.Output = append([]byte(nil), s.out.Bytes()[outStart:]...)
-	r.Steps = cur.steps
-	r.BudgetHit = cur.hit || (!hooksOn && ctx.Err() != nil)
+	ss := curState()
+	r.Steps = ss.steps
+	r.BudgetHit = ss.hit || (!hooksOn && ctx.Err() != nil)
 	return r
 }
 
@@ -178,11 +179,11 @@ func runPrologCase(c *proto.Case) *proto.Result {
 			return res
 		}
 	}
-	installHooks()
-	defer uninstallHooks()
+	s := newSession(c)
 	counters = &proto.Counters{}
 	defer func() { counters = nil }()
-	s := newSession(c)
+	installHooks()
+	defer uninstallHooks()
 	for _, text := range c.Setup {
 		ctx, cancel := s.begin(0)
 		err := s.p.ExecContext(ctx, text)
